@@ -176,8 +176,8 @@ def make_tiny(n: int, first_class: str):
 TOKEN_TEMPLATES = [
     ["uint8", " ", "a", "\n", "@sealed", "\n"],
     ["@union", "\n", "uint8", " ", "a", "\n", "ns.Leaf.1.0", "[", "<=", "3", "]", " ", "b", "\n", "@extent", " ", "64", " ", "*", " ", "8", "\n"],
-    ["uint8", " ", "K", " ", "=", " ", "(", "1", " ", "+", " ", "2", ")", " ", "**", " ", "2", "\n", "@assert", " ", "K",
-     " ", "==", " ", "9", "\n", "@sealed", "\n"],
+    ["uint8", " ", "K", " ", "=", " ", "(", "1", " ", "+", " ", "2", ")", " ", "*", " ", "3", "\n", "@assert", " ", "K",
+     " ", "==", " ", "9", "\n", "@sealed", "\n"],  # no `**` here: a mutated exponent (1e400, 30 digits) would exhaust memory
     ["# doc", "\n", "@deprecated", "\n", "void3", "\n", "bool", "[", "5", "]", " ", "f", " ", "# c", "\n", "@sealed", "\n",
      "---", "\n", "float32", " ", "r", "\n", "@print", " ", "_offset_", "\n", "@sealed"],
     ["@assert", " ", "{", "1", ",", " ", "2", "}", ".", "max", " ", "==", " ", "2", " ", "&&", " ", "!", "false", "\n",
@@ -444,7 +444,7 @@ def conditions(tier: str, seed: int) -> typing.List[Cond]:
             out.append(Cond(PROP, "c13.tokens", make_tokens, {"template": ti, "op": op}, {"p": int, "r": int}, kind="choice",
                             assumptions=["one token-level %s at every position of template %d (replacement pool of %d "
                                          "tokens)" % (op, ti, len(POOL))],
-                            witness={"p": 1, "r": 0}, budget=900.0, need_exhaust=True, key="key_c13"))
+                            witness={"p": 1, "r": 0}, budget=240.0, need_exhaust=True, key="key_c13"))
     out.append(Cond(PROP, "c13.dep", make_dep, {"variant": 0}, {"i": int}, kind="choice", witness={"i": 2}, budget=120.0,
                     assumptions=["9 faulty dependency bodies (incl. self reference and back reference)"],
                     need_exhaust=True, key="key_c13"))
